@@ -3,12 +3,16 @@
 //   it.bicg <itol>                 <rows> <cols> [ri..] [ci..] [vals..] [b..] [x0..] <max_iter> <tol>
 // The matrix is built with Sparse::from_triplets from the triplets in the order given.
 // Answer: i0 i<k> (Ok(k)) or i1 f<err> (Err(err)), then x (length, components), then the budget.
+// With the suffix ".t" (it.cg.t, it.bicg.t, ...) the answer is the stream of the correspondence check:
+// i0 i<k> x budget after Ok, i1 budget after Err (a non-converged run is not compared float by float).
 // The operands b (a shared reference) must come back bit-for-bit unchanged.
 #![allow(unused_imports, dead_code)]
 use ohsl::{Sparse, Vector};
 use crate::io::{Args, Out, Elt};
 
-pub fn run(kind: &str, a: &mut Args, out: &mut Out) {
+pub fn run(kind0: &str, a: &mut Args, out: &mut Out) {
+    let brief = kind0.ends_with(".t");
+    let kind = if brief { &kind0[..kind0.len() - 2] } else { kind0 };
     let itol = if kind == "it.bicg" { a.usize() } else { 0 };
     let rows = a.usize();
     let cols = a.usize();
@@ -32,6 +36,14 @@ pub fn run(kind: &str, a: &mut Args, out: &mut Out) {
     };
     for i in 0..b.size() {
         if b[i].to_bits() != bsnap[i] { panic!("harness: operand mutated by {}", kind); }
+    }
+    if brief {
+        match r {
+            Ok(k) => { out.usize(0); out.usize(k); out.v(&x); }
+            Err(_) => { out.usize(1); }
+        }
+        out.usize(max_iter);
+        return;
     }
     match r {
         Ok(k) => { out.usize(0); out.usize(k); }
